@@ -21,6 +21,15 @@
                                     the block calls.  The compiler is expected to reject these; they
                                     are generated to confirm that (see StrayPrograms below)
 
+       emitx(x) / createx(x) / ffx(x)  finish statements whose field value is an expression x of a
+                                    given kind (see FinishExprKinds): `emit E {n: x}`,
+                                    `create F[k: 4]=>{v: x}`, and a finish function whose second
+                                    statement is `emit E {n: x}`.  Only literals, identifiers, field
+                                    access, struct/optional/enum literals may appear in a finish
+                                    block; every other kind — above all a call of a user function,
+                                    which can panic after an earlier statement of the same finish
+                                    block has already written — must be rejected by the compiler.
+
    where every `c` / `n` is the value the condition takes in this run (the harness passes it
    in a command field of its own), and `ops` is a sequence of finish statements:
    emit / create / delete / update / a finish-function call.  Concretisation added by the
@@ -57,6 +66,7 @@ CONSTANTS MaxStmts,     \* statements per policy block (nested ones count)
           WithElif,     \* enumerate if / else if / else statements (arms from MatchArms)
           StrayBase,    \* base programs into which a misplaced finish-only statement is inserted ({} = none)
           StrayOps,     \* the finish-only statements inserted (op records)
+          XKinds,       \* kinds of finish-field expressions to generate programs for ({} = none)
           Enumerate     \* TRUE: Init ranges over the set of all programs within the bounds;
                         \* FALSE: programs are drawn by random derivation (MC module, tlc -simulate)
 
@@ -161,6 +171,63 @@ StrayPrograms ==
 ---------------------------------------------------------------------------------
 (* Finish operations -> MachineIO calls.  F is `fact F[k int]=>{v int}`; initially F[1]=>{1}. *)
 
+(* Expressions in finish-statement fields, by ExprKind of check_finish_expression
+   (compile/lower.rs).  allowed = the compiler accepts the kind in a finish block; ty = type of
+   the rendered expression; XVal = what it evaluates to (c = run-time value of its condition):
+       int       6                                   allowed
+       dot       this.one            (= 1)           allowed
+       bool      true                                allowed
+       call      pos(this.c)         user function: 6 if c, falls off its end (Panic) otherwise
+       builtin   saturating_add(5, 1)
+       todo      todo()                              Panic
+       ifexpr    if this.c { : 6 } else { : 7 }
+       match     match this.c { true => 6 false => 7 }
+       coalesce  add(5, 1) or 0
+       count     count_up_to 1 F[k: 1]               (F[1] is present whenever it is evaluated)
+       block     { let z = 6 : z }
+       and / not / eq / gt / is      this.c && true, !this.c, this.one == 1, this.one > 0, Some(1) is Some
+   Not generated: Ok/Err/Cast/Substruct/NamedStruct/Optional/EnumReference/Unit/String/Identifier
+   (need more scaffolding to type-check in a field), ForeignFunctionCall (the harness has no
+   value-returning FFI), Return/Recall (rejected for their context already). *)
+FinishExprKinds ==
+  { [k |-> "int", allowed |-> TRUE, ty |-> "int", cond |-> FALSE],
+    [k |-> "dot", allowed |-> TRUE, ty |-> "int", cond |-> FALSE],
+    [k |-> "bool", allowed |-> TRUE, ty |-> "bool", cond |-> FALSE],
+    [k |-> "call", allowed |-> FALSE, ty |-> "int", cond |-> TRUE],
+    [k |-> "builtin", allowed |-> FALSE, ty |-> "int", cond |-> FALSE],
+    [k |-> "todo", allowed |-> FALSE, ty |-> "int", cond |-> FALSE],
+    [k |-> "ifexpr", allowed |-> FALSE, ty |-> "int", cond |-> TRUE],
+    [k |-> "match", allowed |-> FALSE, ty |-> "int", cond |-> TRUE],
+    [k |-> "coalesce", allowed |-> FALSE, ty |-> "int", cond |-> FALSE],
+    [k |-> "count", allowed |-> FALSE, ty |-> "int", cond |-> FALSE],
+    [k |-> "block", allowed |-> FALSE, ty |-> "int", cond |-> FALSE],
+    [k |-> "and", allowed |-> FALSE, ty |-> "bool", cond |-> TRUE],
+    [k |-> "not", allowed |-> FALSE, ty |-> "bool", cond |-> TRUE],
+    [k |-> "eq", allowed |-> FALSE, ty |-> "bool", cond |-> FALSE],
+    [k |-> "gt", allowed |-> FALSE, ty |-> "bool", cond |-> FALSE],
+    [k |-> "is", allowed |-> FALSE, ty |-> "bool", cond |-> FALSE] }
+XKind(k) == CHOOSE r \in FinishExprKinds : r.k = k
+B2N(b) == IF b THEN 101 ELSE 100          \* bool results are reported through `effect EB {b bool}` as 100 + b
+XVal(x) ==
+  CASE x.k = "int" -> [panic |-> FALSE, v |-> 6]
+    [] x.k = "dot" -> [panic |-> FALSE, v |-> 1]
+    [] x.k = "bool" -> [panic |-> FALSE, v |-> B2N(TRUE)]
+    [] x.k = "call" -> [panic |-> ~x.c, v |-> 6]
+    [] x.k = "builtin" -> [panic |-> FALSE, v |-> 6]
+    [] x.k = "todo" -> [panic |-> TRUE, v |-> 0]
+    [] x.k = "ifexpr" -> [panic |-> FALSE, v |-> IF x.c THEN 6 ELSE 7]
+    [] x.k = "match" -> [panic |-> FALSE, v |-> IF x.c THEN 6 ELSE 7]
+    [] x.k = "coalesce" -> [panic |-> FALSE, v |-> 6]
+    [] x.k = "count" -> [panic |-> FALSE, v |-> 1]
+    [] x.k = "block" -> [panic |-> FALSE, v |-> 6]
+    [] x.k = "and" -> [panic |-> FALSE, v |-> B2N(x.c)]
+    [] x.k = "not" -> [panic |-> FALSE, v |-> B2N(~x.c)]
+    [] x.k \in {"eq", "gt", "is"} -> [panic |-> FALSE, v |-> B2N(TRUE)]
+XExprs(kinds) == UNION {IF XKind(k).cond THEN {[k |-> k, c |-> c] : c \in BOOLEAN} ELSE {[k |-> k, c |-> TRUE]} : k \in kinds}
+OpAllowed(o) == o.o \notin {"emitx", "createx", "ffx"} \/ XKind(o.x.k).allowed
+
+(* io of one finish statement and whether evaluating it panicked (then `io` is what had
+   already happened inside it) *)
 OpIo(o, recalled) ==
   CASE o.o = "emit"   -> <<[io |-> "effect", n |-> o.n, recalled |-> recalled]>>
     [] o.o = "create" -> <<[io |-> "insert", k |-> o.k, v |-> o.v]>>
@@ -168,8 +235,32 @@ OpIo(o, recalled) ==
     [] o.o = "update" -> <<[io |-> "delete", k |-> o.k], [io |-> "insert", k |-> o.k, v |-> o.to]>>
     [] o.o = "ff"     -> <<[io |-> "insert", k |-> 3, v |-> 3], [io |-> "effect", n |-> 4, recalled |-> recalled]>>
                          \* finish function ff() { create F[k: 3]=>{v: 3}  emit E {n: 4} }
+    [] o.o = "emitx"  -> IF XVal(o.x).panic THEN <<>> ELSE <<[io |-> "effect", n |-> XVal(o.x).v, recalled |-> recalled]>>
+    [] o.o = "createx" -> IF XVal(o.x).panic THEN <<>> ELSE <<[io |-> "insert", k |-> 4, v |-> XVal(o.x).v]>>
+    [] o.o = "ffx"    -> <<[io |-> "insert", k |-> 3, v |-> 3]>>           \* finish function fx(..) { create F[k: 3]=>{v: 3}  emit E {n: x} }
+                         \o (IF XVal(o.x).panic THEN <<>> ELSE <<[io |-> "effect", n |-> XVal(o.x).v, recalled |-> recalled]>>)
+OpPanics(o) == o.o \in {"emitx", "createx", "ffx"} /\ XVal(o.x).panic
+(* a finish block: statements in order; a panicking field expression ends it there *)
+RECURSIVE FinRun(_, _, _)
+FinRun(ops, recalled, acc) ==
+  IF ops = <<>> THEN [io |-> acc, panic |-> FALSE]
+  ELSE IF OpPanics(ops[1]) THEN [io |-> acc \o OpIo(ops[1], recalled), panic |-> TRUE]
+  ELSE FinRun(Tail(ops), recalled, acc \o OpIo(ops[1], recalled))
 RECURSIVE OpsIo(_, _)
 OpsIo(ops, recalled) == IF ops = <<>> THEN <<>> ELSE OpIo(ops[1], recalled) \o OpsIo(Tail(ops), recalled)
+
+(* Programs for finish-field expressions: the expression sits behind an earlier write/emit of the
+   same finish block — in the policy block's finish, in the recall block's finish, inside a finish
+   function — so a panic in it leaves side effects behind. *)
+XPrograms ==
+  UNION {{ [policy |-> <<[t |-> "finish", ops |-> <<[o |-> "create", k |-> 2, v |-> 2], [o |-> "emitx", x |-> x]>>]>>, recall |-> <<>>],
+           [policy |-> <<[t |-> "recall"]>>,
+            recall |-> <<[t |-> "finish", ops |-> <<[o |-> "emit", n |-> 3], [o |-> "emitx", x |-> x]>>]>>],
+           [policy |-> <<[t |-> "finish", ops |-> <<[o |-> "emit", n |-> 1], [o |-> "ffx", x |-> x]>>]>>, recall |-> <<>>] }
+         \cup (IF XKind(x.k).ty = "int"
+               THEN {[policy |-> <<[t |-> "finish", ops |-> <<[o |-> "emit", n |-> 1], [o |-> "createx", x |-> x]>>]>>, recall |-> <<>>]}
+               ELSE {})
+         : x \in XExprs(XKinds)}
 
 ---------------------------------------------------------------------------------
 (* Reference semantics.  Result: [exit, io, rec]; exit "fall" = block ended without exiting. *)
@@ -185,7 +276,8 @@ ExecS(s, ctx, rb) ==
     [] s.t = "check"  -> IF s.c THEN Res("fall", <<>>, FALSE)
                          ELSE IF s.e = "panic" THEN Res("Panic", <<>>, FALSE) ELSE DoRecall
     [] s.t = "recall" -> DoRecall
-    [] s.t = "finish" -> Res(IF ctx = "policy" THEN "Normal" ELSE "Check", OpsIo(s.ops, ctx = "recall"), FALSE)
+    [] s.t = "finish" -> LET fr == FinRun(s.ops, ctx = "recall", <<>>) IN
+                           Res(IF fr.panic THEN "Panic" ELSE IF ctx = "policy" THEN "Normal" ELSE "Check", fr.io, FALSE)
     [] s.t = "if"     -> ExecB(IF s.c THEN s.a ELSE s.b, ctx, rb)
     [] s.t = "match"  -> ExecB(s.arms[s.n + 1], ctx, rb)
     [] s.t = "if3"    -> ExecB(s.arms[IF s.c THEN 1 ELSE IF s.c2 THEN 2 ELSE 3], ctx, rb)
@@ -269,7 +361,9 @@ VmStep(code, pc, inrecall, io, fuel) ==
       [] ins.i = "branch"  -> VmStep(code, IF ins.c THEN ins.to ELSE pc + 1, inrecall, io, fuel - 1)
       [] ins.i = "jump"    -> VmStep(code, ins.to, inrecall, io, fuel - 1)
       [] ins.i = "recall"  -> VmStep(code, ins.to, TRUE, io, fuel - 1)      \* ctx := Recall
-      [] ins.i = "ops"     -> VmStep(code, pc + 1, inrecall, io \o OpsIo(ins.ops, inrecall), fuel - 1)  \* Emit reads ctx
+      [] ins.i = "ops"     -> LET fr == FinRun(ins.ops, inrecall, <<>>) IN                         \* Emit reads ctx
+                              IF fr.panic THEN Res("Panic", io \o fr.io, inrecall)
+                              ELSE VmStep(code, pc + 1, inrecall, io \o fr.io, fuel - 1)
       [] ins.i = "exit"    -> Res(ins.r, io, inrecall)
 VmRun(p) == LET code == Compile(p) IN VmStep(code, 1, FALSE, <<>>, 4 * Len(code) + 4)
 
@@ -298,13 +392,14 @@ WfS(s, ctx) == CASE s.t = "if" -> WfB(s.a, ctx) /\ WfB(s.b, ctx) /\ (s.els <=> s
                  [] s.t = "recall" -> ctx = "policy"
                  [] s.t = "check" -> s.e = "panic" \/ ctx = "policy"
                  [] s.t = "stray" -> FALSE
+                 [] s.t = "finish" -> \A j \in 1..Len(s.ops) : OpAllowed(s.ops[j])
                  [] OTHER -> TRUE
 WfB(b, ctx) == \A i \in 1..Len(b) : WfS(b[i], ctx) /\ (b[i].t = "finish" => i = Len(b))
-WellFormed == \/ prog \in StrayPrograms
+WellFormed == \/ prog \in StrayPrograms \/ prog \in XPrograms
               \/ /\ WfB(prog.policy, "policy") /\ WfB(prog.recall, "recall")
                  /\ SizeB(prog.policy) <= MaxStmts /\ DepthB(prog.policy) <= MaxDepth
 
-Init == prog \in Programs \cup StrayPrograms
+Init == prog \in Programs \cup StrayPrograms \cup XPrograms
 Next == UNCHANGED prog
 Spec == Init /\ [][Next]_prog
 
